@@ -16,7 +16,7 @@ run_group () {
   git -C /repo checkout -- .
   git -C /repo clean -fdq
 }
-run_group G1 "C01_B1 C03_B1 C04_B1 C09_B1 C11_B1" "C01 C02 C03 C04 C05 C06 C07 C09 C10 C11 C13"
+[ -n "$SKIP_G1" ] || run_group G1 "C01_B1 C03_B1 C04_B1 C09_B1 C11_B1" "C01 C02 C03 C04 C05 C06 C07 C09 C10 C11 C13"
 run_group G2 "C02_B1 C06_B1 C08_B1 C10_B1 C13_B1" "C01 C02 C03 C04 C05 C06 C07 C08 C09 C10 C11 C13 C15"
 run_group G3 "C05_B1" "C05 C04 C06 C01"
 run_group G4 "C07_B1" "C07 C13 C05 C04"
